@@ -35,7 +35,7 @@ IMPORTS = ["Model.Traverse", "Model.Corr", "Model.Globals", "Model.Binding", "Mo
 FRAGMENT_MODE = bool(os.environ.get("SYM_FRAGMENT"))
 MAX_PRED_LITS = 9      # 2^n subsets of the predicate literals of one body / condition
 MAX_TEXT = 60000
-N_SYMMETRIC = 220      # programs from gen_symmetric per run
+N_SYMMETRIC = 400      # programs from gen_symmetric per run
 CHANGED = {}
 FOREIGN = [("__aux_1", 1), ("__aux_2", 2), ("__dom_p", 2), ("__dom_q", 2), ("p", 2), ("q", 2), ("in", 1)]
 
@@ -82,8 +82,11 @@ def gen_symmetric(rng):
         ar = arities[n]
         k = rng.choice([2, 2, 2, 3])
         diff_pos = [i for i in range(ar) if rng.random() < 0.5] or [rng.randrange(ar)]
-        if len(diff_pos) == ar and ar > 1 and rng.random() < 0.6:
+        if len(diff_pos) == ar and ar > 1 and rng.random() < 0.4:
             diff_pos.pop()
+        force_simple = ar >= 2 and rng.random() < 0.25     # two positions under != : init_simple
+        if force_simple:
+            diff_pos = sorted(rng.sample(range(ar), 2))
         lits, diffvars, shared = [], {}, []
         for j in range(k):
             args = []
@@ -100,7 +103,9 @@ def gen_symmetric(rng):
             lits.append(f"{sign}{n}({','.join(args)})")
         comps = []
         for i, vs in diffvars.items():
-            kind = rng.choice(["!=", "!=", "!=", "<", ">", "not=", "mixed", "partial", "not>"])
+            kind = rng.choice(["!=", "!=", "!=", "!=", "<", ">", "not=", "mixed", "partial", "not>"])
+            if force_simple:
+                kind = rng.choice(["!=", "!=", "not="])
             for a in range(len(vs)):
                 for b in range(a + 1, len(vs)):
                     x, y = vs[a], vs[b]
@@ -130,25 +135,26 @@ def gen_symmetric(rng):
             used += vs
             shared += sh
         # link two groups through a shared unequal variable now and then
-        if rng.random() < 0.25 and used:
+        if rng.random() < 0.2 and used:
             body.append(f"t({rng.choice(used)})")
         if rng.random() < 0.3 and shared:
             body.append(f"u({rng.choice(shared)})")
-        if rng.random() < 0.15 and used:
-            body.append(f"w(C) : x(C,{rng.choice(used + shared + ['C'])})")
         if rng.random() < 0.2 and len(used) >= 2:
             a, b = rng.sample(used, 2)
             body.append(f"{a} = {b}" if rng.random() < 0.5 else f"E = {a}")
-        rng.shuffle(body)
         hv = rng.choice(["", "", "", "G", rng.choice(shared) if shared else "", rng.choice(used) if used else ""])
         shape = rng.random()
+        if shape < 0.4 or shape >= 0.75 and shape < 0.9:
+            if rng.random() < 0.15 and used:        # conditional literals only in bodies
+                body.append(f"w(C) : x(C,{rng.choice(used + shared + ['C'])})")
+        rng.shuffle(body)
         if shape < 0.4:
             head = f"h({hv})" if hv else rng.choice(["h", ""])
-            lines.append(f"{head} :- {', '.join(body)}.")
+            lines.append(f"{head} :- {'; '.join(body)}.")
         elif shape < 0.75:
             tup = rng.choice([hv or "1", "1", rng.choice(shared) if shared else "0", rng.choice(used) if used else "2"])
             fn = rng.choice(["#count", "#sum", "#sum+", "#min"])
-            extra = rng.choice(["", "", f", z({hv})" if hv else ", z(1)"])
+            extra = rng.choice(["", "", f"; z({hv})" if hv else "; z(1)"])
             second = ""
             if rng.random() < 0.3:
                 l2, c2, _, _ = group("9")
@@ -156,7 +162,7 @@ def gen_symmetric(rng):
             head = f"h({hv}) " if hv and extra else ""
             lines.append(f"{head}:- {fn}{{ {tup} : {', '.join(body)}{second} }} >= 2{extra}.")
         elif shape < 0.9:
-            lines.append(f":~ {', '.join(body)}. [1@1{',' + hv if hv else ''}]")
+            lines.append(f":~ {'; '.join(body)}. [1@1{',' + hv if hv else ''}]")
         else:
             lines.append(f"#minimize {{ 1@2{',' + hv if hv else ''} : {', '.join(body)} }}.")
     return "\n".join(lines)
